@@ -17,7 +17,8 @@ def run(ctx):
     if quick:
         build_c = {"Caps": "{41, 42, 62, 342, 1522}", "NSmall": "{0, 1, 17, 18}", "PortClasses": '{"dhcp", "mdns", "plain"}',
                    "DhcpCodes": "{1, 3, 6, 51}", "MaxOpts": "4", "Parts": '{"build"}'}
-        dhcp_c = {"DhcpCodes": "{1, 3, 6, 12, 33, 51, 121}", "MaxOpts": "4", "ReqCodes": "{1, 3, 6, 12, 53}", "MaxReq": "2",
+        dhcp_c = {"DhcpCodes": "{1, 3, 6, 12, 33, 43, 51, 121}", "MaxOpts": "4", "ReqCodes": "{1, 3, 6, 43, 53}", "MaxReq": "2",
+                  "BigCode": "43", "BigLens": "{0, 1, 64, 254, 255}",
                   "DhcpCaps": "{299, 300, 301, 1472}", "Parts": '{"dhcp"}'}
         k = 3
     else:
@@ -26,6 +27,10 @@ def run(ctx):
                    "DhcpCodes": "{1, 3, 6, 12, 51, 121}", "MaxOpts": "6", "Parts": '{"build"}'}
         dhcp_c = {"DhcpCodes": "{1, 3, 6, 12, 15, 33, 51, 54, 121}", "MaxOpts": "4", "ReqCodes": "{1, 3, 6, 12, 53, 121}", "MaxReq": "3",
                   "DhcpCaps": "{299, 300, 301, 1472}", "Parts": '{"dhcp"}'}
+        # second thorough run: the value length of option 43 ranges over the boundary classes
+        big_c = {"DhcpCodes": "{1, 3, 6, 12, 33, 43, 51, 121}", "MaxOpts": "5", "ReqCodes": "{1, 3, 43, 53}", "MaxReq": "2",
+                 "BigCode": "43", "BigLens": "{0, 1, 2, 64, 127, 128, 253, 254, 255}",
+                 "DhcpCaps": "{300, 301, 600, 1472}", "Parts": '{"dhcp"}'}
         k = 8
     total_eval = 0
     distinct = set()
@@ -33,7 +38,10 @@ def run(ctx):
     drift_all = []
     notes_all = {}
     states = trans = 0
-    for name, consts in (("build", build_c), ("dhcp", dhcp_c)):
+    parts = [("build", build_c), ("dhcp", dhcp_c)]
+    if not quick:
+        parts.append(("dhcpbig", big_c))
+    for name, consts in parts:
         vecs, r = wc.tlc_part(ctx, name, consts, timeout=2400)
         cov["tlc"][name] = r.summary()
         cov["tlc"][name]["exported"] = len(vecs)
